@@ -3,6 +3,7 @@ import Drv.Walk
 import Drv.Rules
 import Drv.Render
 import Drv.Loader
+import Drv.Locks
 /-!
 Line-protocol driver: one operation per line on stdin, one canonical answer line on stdout.
 Every engine exports `handle : List String → Option String` answering only its own ops;
@@ -15,7 +16,8 @@ def handlers : List (List String → Option String) := [
   Drv.WalkD.handle,
   Drv.RulesD.handle,
   Drv.RenderD.handle,
-  Drv.LoaderD.handle
+  Drv.LoaderD.handle,
+  Drv.Locks.handle
 ]
 
 def dispatch (fs : List String) : Option String :=
